@@ -132,6 +132,10 @@ class ModuleInfo:
             raise AnalysisError("cannot parse %s: %s" % (rel, e))
         # locals are brought back to their canonical names by role (sa/localroles.py): no rule depends on what a local is called
         from .localroles import canonicalise, canonical_comparisons
+        # locals that merely name a long-lived holder object (`tree = self.tree`, `parser = self.parser`) are written out
+        self.aliases_inlined = inline_stable_aliases(self.tree) if not os.environ.get("VERIF_NO_ALIAS_INLINE") else 0
+        # `x = a if c else b` / `return a if c else b` are read as the if / else statement they abbreviate
+        self.ifexp_lowered = lower_conditional_statements(self.tree) if not os.environ.get("VERIF_NO_IFEXP_LOWERING") else 0
         self.comparisons_mirrored = canonical_comparisons(self.tree) if not os.environ.get("VERIF_NO_CANON") else 0
         self.locals_renamed = canonicalise(self.tree, rel)
         self.lines = self.source.splitlines()
@@ -442,6 +446,133 @@ def membership_test(test: ast.AST, evaluate):
         if all(p is not None for p in parts) and len({p[0] for p in parts}) == 1:
             return parts[0][0], frozenset().union(*[p[1] for p in parts])
     return None
+
+
+def lower_conditional_statements(tree: ast.AST) -> int:
+    """In place: an assignment or return whose whole value is a conditional expression becomes the if / else statement with the
+    same meaning (`t = a if c else b` -> `if c: t = a` / `else: t = b`), when the targets are plain names or attribute chains
+    (so evaluating the target before or after the condition makes no difference).  Rules written for statements then see both
+    spellings alike.  Returns the number of statements rewritten."""
+    import copy
+    count = [0]
+
+    def simple_target(t):
+        return isinstance(t, ast.Name) or (isinstance(t, ast.Attribute) and attr_chain(t) is not None and not any("[" in a or "(" in a for a in attr_chain(t)))
+
+    def lower(st):
+        v = getattr(st, "value", None)
+        if not isinstance(v, ast.IfExp):
+            return None
+        if isinstance(st, ast.Assign) and all(simple_target(t) for t in st.targets):
+            mk = lambda val: ast.copy_location(ast.Assign(targets=copy.deepcopy(st.targets), value=val, type_comment=None), st)  # noqa: E731
+        elif isinstance(st, ast.Return):
+            mk = lambda val: ast.copy_location(ast.Return(value=val), st)  # noqa: E731
+        else:
+            return None
+        count[0] += 1
+        return ast.copy_location(ast.If(test=v.test, body=[mk(v.body)], orelse=[mk(v.orelse)]), st)
+
+    def walk_body(body):
+        for i, st in enumerate(body):
+            for field in ("body", "orelse", "finalbody"):
+                sub = getattr(st, field, None)
+                if isinstance(sub, list) and sub and isinstance(sub[0], ast.stmt):
+                    walk_body(sub)
+            for h in getattr(st, "handlers", []) or []:
+                walk_body(h.body)
+            new = lower(st)
+            if new is not None:
+                body[i] = new
+                walk_body(new.body)
+                walk_body(new.orelse)
+            # `if not c: A else: B` (a plain two-armed if, not an elif chain) is read as `if c: B else: A`
+            st = body[i]
+            if isinstance(st, ast.If) and st.orelse and isinstance(st.test, ast.UnaryOp) and isinstance(st.test.op, ast.Not) and \
+                    not (len(st.orelse) == 1 and isinstance(st.orelse[0], ast.If)) and not os.environ.get("VERIF_NO_POLARITY"):
+                st.test = st.test.operand
+                st.body, st.orelse = st.orelse, st.body
+                count[0] += 1
+    walk_body(tree.body)
+    if count[0]:
+        ast.fix_missing_locations(tree)
+    return count[0]
+
+
+_RESET_LIKE = ("__init__", "reset", "_parse")
+
+
+def inline_stable_aliases(tree: ast.AST) -> int:
+    """In place: a local assigned exactly once, at the top level of its function, from a chain `self.a` / `self.a.b` whose
+    attributes are *stable in this module* -- never stored to outside __init__ / reset / _parse, whatever the receiver -- is
+    replaced by the chain wherever it is read.  `tree = self.tree; tree.insertElement(t)` thus reads `self.tree.insertElement(t)`
+    for every rule.  A local that snapshots state (`framesetOK = self.parser.framesetOK`, `originalPhase = self.parser.phase`)
+    is left alone: its attribute is stored to by the handlers, so the copy and the chain can differ.  Returns the number of
+    aliases written out."""
+    import copy
+    unstable = set()
+    funcs = [n for n in ast.walk(tree) if isinstance(n, (ast.FunctionDef, ast.AsyncFunctionDef))]
+    for fn in funcs:
+        if fn.name in _RESET_LIKE:
+            continue
+        for n in ast.walk(fn):
+            tg = []
+            if isinstance(n, ast.Assign):
+                tg = n.targets
+            elif isinstance(n, (ast.AugAssign, ast.AnnAssign)):
+                tg = [n.target]
+            elif isinstance(n, ast.Delete):
+                tg = n.targets
+            elif isinstance(n, (ast.For, ast.comprehension)):
+                tg = [n.target]
+            elif isinstance(n, ast.With):
+                tg = [i.optional_vars for i in n.items if i.optional_vars is not None]
+            for t in tg:
+                for x in ast.walk(t):
+                    if isinstance(x, ast.Attribute) and isinstance(x.ctx, (ast.Store, ast.Del)):
+                        unstable.add(x.attr)
+            if isinstance(n, ast.Call) and isinstance(n.func, ast.Name) and n.func.id in ("setattr", "delattr"):
+                return 0            # attributes written by name: nothing is known to be stable
+    done = 0
+    for fn in funcs:
+        params = {a.arg for a in fn.args.args + fn.args.kwonlyargs + getattr(fn.args, "posonlyargs", [])}
+        if fn.args.vararg:
+            params.add(fn.args.vararg.arg)
+        if fn.args.kwarg:
+            params.add(fn.args.kwarg.arg)
+        if not fn.args.args or fn.args.args[0].arg != "self":
+            continue
+        stores = {}
+        for n in ast.walk(fn):
+            if isinstance(n, ast.Name) and isinstance(n.ctx, (ast.Store, ast.Del)):
+                stores[n.id] = stores.get(n.id, 0) + 1
+            elif isinstance(n, (ast.Global, ast.Nonlocal)):
+                for nm in n.names:
+                    stores[nm] = 99
+        alias = {}
+        for st in fn.body:
+            if isinstance(st, ast.Assign) and len(st.targets) == 1 and isinstance(st.targets[0], ast.Name) and \
+                    stores.get(st.targets[0].id) == 1 and st.targets[0].id not in params and isinstance(st.value, ast.Attribute):
+                ch = attr_chain(st.value)
+                if ch and ch[0] == "self" and 2 <= len(ch) <= 3 and not any(a in unstable or "[" in a for a in ch[1:]):
+                    alias[st.targets[0].id] = st.value
+        if not alias:
+            continue
+
+        class T(ast.NodeTransformer):
+            def visit_Name(self, n):
+                if isinstance(n.ctx, ast.Load) and n.id in alias:
+                    return ast.copy_location(copy.deepcopy(alias[n.id]), n)
+                return n
+
+            def visit_Assign(self, n):
+                if len(n.targets) == 1 and isinstance(n.targets[0], ast.Name) and n.targets[0].id in alias:
+                    return ast.copy_location(ast.Pass(), n)
+                return self.generic_visit(n)
+        new_body = [T().visit(st) for st in fn.body]
+        fn.body = [st for st in new_body if not isinstance(st, ast.Pass)] or [ast.copy_location(ast.Pass(), fn.body[0])]
+        ast.fix_missing_locations(fn)
+        done += len(alias)
+    return done
 
 
 def inline_self_aliases(func: "FuncInfo") -> "FuncInfo":
